@@ -6,7 +6,7 @@ UFUNS = {'text_eq': ['int', 'int', 'bool'], 'str_hash': ['int', 'int', 'int'], '
 @macro
 def AbsInv(s):
     return (s.g_vlen >= 0
-        and forall(lambda k: implies(0 <= k and k < s.g_vlen, sel(s.g_view, k) != None and as_ref(sel(s.g_view, k), 'RawTokenModel').g_store is s and as_ref(sel(s.g_view, k), 'RawTokenModel').g_pos == k), sel(s.g_view, k)))
+        and forall(lambda k: implies(0 <= k and k < s.g_vlen, allocated(as_ref(sel(s.g_view, k), 'RawTokenModel')) and as_ref(sel(s.g_view, k), 'RawTokenModel').g_store is s and as_ref(sel(s.g_view, k), 'RawTokenModel').g_pos == k), sel(s.g_view, k)))
 
 @macro
 def In(s, t):
@@ -105,3 +105,49 @@ def _(self):
     requires(self != None)
     modifies()
     ensures(result == str_hash(self.RULE, self._raw_text))
+
+# ---- deep copy of a tree model (C11): a fresh store holding fresh copies of exactly the model's tokens, the clone built over the id map old -> new;
+#      nothing that existed before is written (the original and its document are untouched)
+@contract('TokenStore.from_tokens')
+def _(cls, tokens):
+    requires(tokens != None and forall(lambda k: implies(0 <= k and k < len(tokens), tokens[k] != None and tokens[k].g_store is None), tokens[k]))
+    requires(forall(lambda j, k: implies(0 <= j and j < k and k < len(tokens), tokens[j] != tokens[k])))
+    modifies('TokenStore.g_view@fresh', 'TokenStore.g_vlen@fresh', 'RawTokenModel.g_store', 'RawTokenModel.g_pos')
+    ensures(result != None and fresh(result) and result.g_vlen == len(tokens) and AbsInv(result))
+    ensures(forall(lambda k: implies(0 <= k and k < len(tokens), sel(result.g_view, k) == tokens[k]), sel(result.g_view, k)))
+    ensures(forall(lambda t: implies(not exists(lambda k: 0 <= k and k < len(tokens) and tokens[k] == t), as_ref(t, 'RawTokenModel').g_store is old(as_ref(t, 'RawTokenModel').g_store) and as_ref(t, 'RawTokenModel').g_pos == old(as_ref(t, 'RawTokenModel').g_pos))))
+
+@contract('MappingTokenTransformer.__init__')
+def _(self, map):
+    modifies('MappingTokenTransformer._map@self')
+    ensures(self._map is map)
+
+# clone is virtual: every generated class implements it from its slot template (unit l4.templates proves: store passed on, every slot cloned in slot order,
+# leaf slots through the transformer); here only what __deepcopy__ hands to it is recorded
+@contract('RawModel.clone')
+def _(self, token_store, token_transformer):
+    requires(token_store != None and token_transformer != None)
+    modifies('RawModel.g_ts@fresh', 'RawModel.g_src@fresh', 'RawModel.g_tr@fresh')
+    ensures(result != None and fresh(result) and result.g_ts is token_store and result.g_src is self and result.g_tr is token_transformer)
+
+@contract('RawTreeModel.__deepcopy__')
+def _(self, memo):
+    requires(self != None and self.g_ts != None and self._token_store is self.g_ts and AbsInv(self.g_ts))
+    requires(In(self.g_ts, self.g_first) and In(self.g_ts, self.g_last) and self.g_first.g_pos <= self.g_last.g_pos)
+    modifies('RawTokenModel._raw_text@fresh', 'RawTokenModel.RULE@fresh', 'RawTokenModel.g_store@fresh', 'RawTokenModel.g_pos@fresh', 'list[RawTokenModel]@fresh', 'dict[RawTokenModel]@fresh',
+             'TokenStore.g_view@fresh', 'TokenStore.g_vlen@fresh', 'MappingTokenTransformer._map@fresh', 'RawModel.g_ts@fresh', 'RawModel.g_src@fresh', 'RawModel.g_tr@fresh')
+    invariant(0, tokens != None and fresh(tokens) and token_map != None and fresh(token_map) and len(tokens) == K and AbsInv(self.g_ts) and self.g_ts is old(self.g_ts) and self.g_first is old(self.g_first))
+    invariant(0, forall(lambda j: implies(0 <= j and j < K, tokens[j] != None and fresh(tokens[j]) and tokens[j].g_store is None
+                                 and tokens[j]._raw_text == as_ref(sel(self.g_ts.g_view, self.g_first.g_pos + j), 'RawTokenModel')._raw_text
+                                 and tokens[j].RULE == as_ref(sel(self.g_ts.g_view, self.g_first.g_pos + j), 'RawTokenModel').RULE
+                                 and sel(elems(token_map), sel(self.g_ts.g_view, self.g_first.g_pos + j)) == tokens[j]), tokens[j]))
+    invariant(0, forall(lambda i, j: implies(0 <= i and i < j and j < K, tokens[i] != tokens[j])))
+    ensures(result != None and fresh(result) and result.g_src is self and fresh(result.g_ts) and fresh(result.g_tr))
+    ensures(AbsInv(result.g_ts) and result.g_ts.g_vlen == self.g_last.g_pos - self.g_first.g_pos + 1)
+    # token k of the copy's store: fresh, same rule and text as token k of the original span; the transformer maps the original token to it
+    ensures(forall(lambda k: implies(0 <= k and k < result.g_ts.g_vlen, fresh(as_ref(sel(result.g_ts.g_view, k), 'RawTokenModel'))), sel(result.g_ts.g_view, k)))
+    ensures(forall(lambda k: implies(0 <= k and k < result.g_ts.g_vlen,
+                as_ref(sel(result.g_ts.g_view, k), 'RawTokenModel')._raw_text == as_ref(sel(self.g_ts.g_view, self.g_first.g_pos + k), 'RawTokenModel')._raw_text
+                and as_ref(sel(result.g_ts.g_view, k), 'RawTokenModel').RULE == as_ref(sel(self.g_ts.g_view, self.g_first.g_pos + k), 'RawTokenModel').RULE), sel(result.g_ts.g_view, k)))
+    ensures(forall(lambda k: implies(0 <= k and k < result.g_ts.g_vlen,
+                sel(elems(as_ref(result.g_tr, 'MappingTokenTransformer')._map), sel(self.g_ts.g_view, self.g_first.g_pos + k)) == sel(result.g_ts.g_view, k)), sel(result.g_ts.g_view, k)))
